@@ -12,7 +12,7 @@ from . import tokens_lang as TL
 META = {
     'decides': (
         'C01, the grammar\'s parameters and the delimiting of exported text: '
-        '(prec) the precedence table orders the 18 operator names exactly as '
+        ' (prec) the precedence table orders the 18 operator names exactly as '
         'Excel\'s binding classes (relation compared for all 324 ordered '
         'pairs); (arity) unary signs and % take one operand, everything else '
         'two; (assoc) the shunting-yard pop relation is "pop while top >= new", '
@@ -21,12 +21,13 @@ META = {
         'closing parenthesis or %; (names) every name an operator token can '
         'produce is a key of the precedence table and of OPERATORS; (empty) '
         'empty arguments are inserted in the three contexts "(," ",," ",)"; '
-        '(render) every set_expr assigns the expression, binary operators are '
+        ' (render) every set_expr assigns the expression, binary operators are '
         'rendered inside one pair of parentheses, function names upper-cased, '
         'and no rendering puts a sign next to an operand unparenthesised; '
-        '(fold) the tokenizer does not merge a binary operator with a following '
+        ' (fold) the tokenizer does not merge a binary operator with a following '
         'sign; (filters) the matcher order respects the overlaps Error<Range, '
-        'Number<Range, Intersect last.'),
+        'Number<Range, Intersect last.'
+        ' (predsnap) the rank an operator token is compared with is read after the token has been renamed by its context (no stale copy of `pred`); (signrun) the sign a folded run of + and - stands for is the parity of its minus signs; (filters) the order of the token matchers respects prefix overlaps.'),
     'not_decided': (
         'That parsing every spelling yields the spec tree (whitespace, case, '
         'redundant parentheses, argument counting across nesting) and the '
@@ -772,8 +773,34 @@ def rule_filters(ctx):
     return rr
 
 
+def rule_predsnap(ctx):
+    """The precedence of an operator token is a property of its *name*, and the
+    name of a sign changes (`-` -> `u-`) when its context is inspected: a copy
+    of the precedence taken before that is the binary rank of a unary sign."""
+    from .modelstate import rule_snapshot
+    return rule_snapshot(
+        ctx, 'C01', 'C01.predsnap', cls_rel=OP, cls_name='Operator',
+        need='pred', min_snaps=1,
+        consequence='the copy is the rank the token had under its old name - '
+                    'a prefix sign compares with the rank of the binary '
+                    'operator and no longer binds tightest')
+
+
 def run(ctx):
     r_prec, prec = rule_prec(ctx)
-    return [r_prec, rule_arity(ctx), rule_assoc(ctx, prec), rule_unary(ctx),
-            rule_names(ctx, prec), rule_empty(ctx), rule_render(ctx),
-            rule_fold(ctx), rule_signrun(ctx), rule_filters(ctx)]
+    snap = None
+    try:
+        assoc = rule_assoc(ctx, prec)
+    except AnalysisError:
+        # the pop loop was not recognised: if that is because it compares a
+        # stale copy of the rank, say so instead of "cannot decide"
+        snap = rule_predsnap(ctx)
+        if not snap.findings:
+            raise
+        assoc = None
+    snap = snap or rule_predsnap(ctx)
+    rules = [r_prec, rule_arity(ctx)] + ([assoc] if assoc is not None else []) \
+        + [rule_unary(ctx), rule_names(ctx, prec), rule_empty(ctx),
+           rule_render(ctx), rule_fold(ctx), rule_signrun(ctx),
+           rule_filters(ctx), snap]
+    return rules
